@@ -51,7 +51,7 @@ CHECKS = {
               "occurrence, either direction) on files of 0/5/9 bytes, both NAK modes, closure on/off, limits K+3, and every schedule "
               "of 3 faults on a 5-byte file, evaluated inside the kernel on System.v: delivered, both users successful, both idle. "
               "UNBOUNDED for K = 1 (props/C03u.v, C03m.v): for every file, every position of ONE lost File Data PDU, and for the lost "
-              "Metadata PDU, and (C03r) every lost control PDU (EOF, ACK (EOF), Finished, ACK (Finished)), and (C03d) any one duplicated PDU, immediate and deferred NAK mode, the transfer is delivered byte-identical; (C03y) any one DELAYED control PDU or EOF for every delay, a delayed File Data PDU for every delay in deferred NAK mode (C03y + C03z; immediate mode: delay of one round, or >= 2 rounds for all but the last-but-one PDU), Metadata delayed by one round. The general liveness theorem (all K, all fault "
+              "Metadata PDU, and (C03r) every lost control PDU (EOF, ACK (EOF), Finished, ACK (Finished)), and (C03d) any one duplicated PDU, immediate and deferred NAK mode, the transfer is delivered byte-identical; (C03y) any one DELAYED control PDU or EOF for every delay, a delayed File Data PDU for every delay in both NAK modes (C03y + C03z + C03w), Metadata delayed by one round. The general liveness theorem (all K, all fault "
               "kinds, all interleavings) is not proved.", "6/C03"),
     "C04": _c("Coq proof (case analysis of the three retry procedures, for all limits N and intervals) + correspondence + virtual-clock oracle",
               "Proof (props/C04.v): EOF-awaiting-ACK, Finished-awaiting-ACK and the NAK procedure: nothing before expiry; expiry k<N "
